@@ -38,7 +38,7 @@ pub fn byte_array_decimal_file(rng: &mut Rng, tr: &mut Shards, cnt: &mut Counter
             if rng.chance(20) {
                 None
             } else {
-                Some(*rng.pick(&[-70000i64, -65536, -32769, -32768, -300, -256, -255, -129, -128, -127, -2, -1, 0, 1, 2, 127, 128, 255, 256, 32767, 32768, 65535, 70000, 999_999_999_999]))
+                Some(*rng.pick(&[-70000i64, -65536, -32769, -32768, -300, -256, -255, -129, -128, -127, -2, -1, 0, 1, 2, 5, 5, 127, 128, 255, 256, 32767, 32768, 51201, 51201, 65535, 70000, 999_999_999_999]))
             }
         })
         .collect();
